@@ -131,6 +131,7 @@ func (p *Prog) wrapperSet(base func(s *Scope) EvPred, needOK bool, depth int) ma
 				}
 				return !has
 			})
+
 			if !has {
 				continue
 			}
@@ -266,8 +267,8 @@ func errEdgeQuery(s *Scope, site *ast.CallExpr, top ast.Node, target EvPred, exi
 
 // topOf finds the CFG node containing sub.
 func (s *Scope) topOf(sub ast.Node) ast.Node {
-	for _, b := range s.G.Blocks {
-		for _, top := range b.Nodes {
+	for _, b := range s.X().blocks {
+		for _, top := range b.nodes {
 			if top.Pos() <= sub.Pos() && sub.End() <= top.End() {
 				found := false
 				events(top, func(m ast.Node) {
@@ -288,8 +289,8 @@ func (s *Scope) topOf(sub ast.Node) ast.Node {
 func (s *Scope) sites(pred EvPred) []ast.Node {
 	var out []ast.Node
 	seen := map[ast.Node]bool{}
-	for _, b := range s.G.Blocks {
-		for _, top := range b.Nodes {
+	for _, b := range s.X().blocks {
+		for _, top := range b.nodes {
 			events(top, func(m ast.Node) {
 				if !seen[m] && pred(m, top) {
 					seen[m] = true
